@@ -170,14 +170,21 @@ class Cur:
 
 
 # ---------------------------------------------------------------------------- pieces
-def flag(c: Cur):
+def flag(c: Cur, in_code=False):
     if c.at(b"\\"):
         c.p += 1
         if c.at(b"*"):
             c.p += 1
             return b"\\*"
         return b"\\" + c.atom()
-    return c.atom()
+    if in_code:
+        return c.atom()
+    # asimap's parser accepts "]" inside a keyword (C08 territory); outside a response code the
+    # flag list is still unambiguous: tolerated, reported
+    a = c.chars(ASTRING_SPECIALS, "a flag")
+    if b"]" in a:
+        c.notes.append("']' in a flag keyword")
+    return a
 
 
 def resp_text(c: Cur):
@@ -190,7 +197,7 @@ def resp_text(c: Cur):
             c.p += 1
             s = c.p
             if c.at(b"("):
-                arg = c.plist(lambda: flag(c))
+                arg = c.plist(lambda: flag(c, in_code=True))
             else:
                 while c.p < len(c.d) and c.d[c.p] not in (13, 10, 0, ord("]")):
                     c.p += 1
@@ -574,7 +581,14 @@ def _response(c: Cur):
                 return {"kind": "id", "params": None}
             return {"kind": "id", "params": c.plist(lambda: (c.string(), (c.sp(), c.nstring())[1]))}
         c.err(f"unknown untagged response {word!r}")
-    tag = c.chars(TAG_SPECIALS, "a tag")
+    s0 = c.p
+    while c.p < len(c.d) and c.d[c.p] not in TAG_SPECIALS:
+        if c.d[c.p] >= 128:
+            c.n8 += 1  # the tag is the client's; asimap echoes 8-bit tags (C08 territory), counted
+        c.p += 1
+    if s0 == c.p:
+        c.err("expected a tag")
+    tag = c.d[s0:c.p]
     c.sp()
     word = c.atom().upper()
     if word not in (b"OK", b"NO", b"BAD"):
